@@ -82,6 +82,8 @@ func (e *Eng) evalSpec(st *State, x *SExpr, env map[string]*Val, old map[string]
 				default:
 					eq = fmt.Sprintf("(= %s 0)", o.T)
 				}
+			case l.Sort == "Slice" && r.Sort == "Slice":
+				eq = fmt.Sprintf("(and (= %s %s) (= %s %s) (= %s %s))", l.Elems[0].T, r.Elems[0].T, l.Elems[1].T, r.Elems[1].T, l.Elems[2].T, r.Elems[2].T)
 			case l.Sort == "Iface" && r.Sort != "Iface":
 				eq = fmt.Sprintf("(= %s %s)", l.T, e.toIface(r, r.Go).T)
 			case r.Sort == "Iface" && l.Sort != "Iface":
@@ -132,6 +134,9 @@ func (e *Eng) evalSpec(st *State, x *SExpr, env map[string]*Val, old map[string]
 			case "asInt":
 				a := e.evalSpec(st, x.Args[1], env, old)
 				return scalar("(iint "+a.T+")", "Int", nil)
+			case "asBool":
+				a := e.evalSpec(st, x.Args[1], env, old)
+				return scalar("(ibool "+a.T+")", "Bool", nil)
 			case "asRef":
 				a := e.evalSpec(st, x.Args[1], env, old)
 				return scalar("(iref "+a.T+")", "Int", nil)
@@ -176,6 +181,12 @@ func (e *Eng) evalSpec(st *State, x *SExpr, env map[string]*Val, old map[string]
 				return scalar(fmt.Sprintf("(spec_%s %s)", fn.Name, strings.Join(args, " ")), rs, nil)
 			}
 		}
+	case STypeAssert:
+		v := e.evalSpec(st, x.Args[0], env, old)
+		t := e.resolveTypeName(x.TypeName)
+		r := e.fromIface(v, t)
+		r.Go = t
+		return r
 	case SIndex:
 		b := e.evalSpec(st, x.Args[0], env, old)
 		i := e.evalSpec(st, x.Args[1], env, old)
@@ -243,12 +254,74 @@ func (e *Eng) evalSpec(st *State, x *SExpr, env map[string]*Val, old map[string]
 }
 
 func (e *Eng) tagByName(tn string) int {
-	if n, ok := (*e.allTags)[tn]; ok {
-		return n
+	return e.tagOf(e.resolveTypeName(tn))
+}
+
+// resolveTypeName turns a Go type written in a contract ("int64", "encoding/json.Number", "[]any",
+// "map[string]any", "*github.com/x/y.T", "*ast.Field" using the package's import names) into a types.Type.
+func (e *Eng) resolveTypeName(tn string) types.Type {
+	tn = strings.TrimSpace(tn)
+	tn = strings.ReplaceAll(tn, "interface {}", "any")
+	tn = strings.ReplaceAll(tn, "interface{}", "any")
+	switch {
+	case tn == "any":
+		return types.NewInterfaceType(nil, nil)
+	case tn == "error":
+		return types.Universe.Lookup("error").Type()
+	case strings.HasPrefix(tn, "*"):
+		return types.NewPointer(e.resolveTypeName(tn[1:]))
+	case strings.HasPrefix(tn, "[]"):
+		return types.NewSlice(e.resolveTypeName(tn[2:]))
+	case strings.HasPrefix(tn, "map["):
+		depth := 0
+		for i := 3; i < len(tn); i++ {
+			switch tn[i] {
+			case '[':
+				depth++
+			case ']':
+				depth--
+				if depth == 0 {
+					return types.NewMap(e.resolveTypeName(tn[4:i]), e.resolveTypeName(tn[i+1:]))
+				}
+			}
+		}
 	}
-	n := len(*e.allTags) + 1
-	(*e.allTags)[tn] = n
-	return n
+	if obj := types.Universe.Lookup(tn); obj != nil {
+		if _, ok := obj.(*types.TypeName); ok {
+			return obj.Type()
+		}
+	}
+	if i := strings.LastIndex(tn, "."); i >= 0 {
+		pk, name := tn[:i], tn[i+1:]
+		var found types.Type
+		var visit func(p *types.Package, seen map[*types.Package]bool)
+		visit = func(p *types.Package, seen map[*types.Package]bool) {
+			if seen[p] || found != nil {
+				return
+			}
+			seen[p] = true
+			if p.Path() == pk || (!strings.Contains(pk, "/") && p.Name() == pk) {
+				if obj := p.Scope().Lookup(name); obj != nil {
+					if _, ok := obj.(*types.TypeName); ok {
+						found = obj.Type()
+						return
+					}
+				}
+			}
+			for _, imp := range p.Imports() {
+				visit(imp, seen)
+			}
+		}
+		visit(e.pkg.Types, map[*types.Package]bool{})
+		if found != nil {
+			return found
+		}
+	} else if obj := e.pkg.Types.Scope().Lookup(tn); obj != nil {
+		if _, ok := obj.(*types.TypeName); ok {
+			return obj.Type()
+		}
+	}
+	panic("spec: cannot resolve type name " + tn)
 }
 
 // counterSum adds up the call counters whose callee key equals name or ends with .name / ).name
